@@ -306,16 +306,27 @@ def cli_migration_run(rec, rnd, tmp, k):
     w = rnd.choice(['COSTCO', 'UBER', 'PRIME'])
     rows = [(w, 'General %s' % w.title(), 'Shopping', 'Wholesale', ''), ('%s GAS[amount>5]' % w, '%s Gas' % w.title(), 'Transport', 'Fuel', 'car'),
             ('%s\\s+VIDEO' % w, '%s Video' % w.title(), 'Subs', 'Video', 'tv|monthly')]
+    rows.append(('%s ANNUAL[month=1]' % w, 'Caf\u00e9 %s Annual' % w.title(), 'Fees', 'Jahresgeb\u00fchr', 'annual'))
     rnd.shuffle(rows)
+    # the statement has a column the format string captures under the name of a date part ({month}: a billing-period label); the month modifier of a rule
+    # is about the transaction's DATE before and after migration
+    month_col = rnd.random() < .5
     with open(os.path.join(root, 'config', 'settings.yaml'), 'w') as f:
-        f.write('year: 2025\n' + ('rule_mode: "%s"\n' % mode if mode else '') + 'data_sources:\n  - name: Card\n    file: data/card.csv\n    format: "{date:%Y-%m-%d},{description},{amount}"\n')
-    with open(os.path.join(root, 'config', 'merchant_categories.csv'), 'w') as f:
+        f.write('year: 2025\n' + ('rule_mode: "%s"\n' % mode if mode else '') + 'data_sources:\n  - name: Card\n    file: data/card.csv\n    format: "{date:%Y-%m-%d},{description},{amount}' +
+                (',{month}' if month_col else '') + '"\n')
+    with open(os.path.join(root, 'config', 'merchant_categories.csv'), 'w', encoding='utf-8') as f:
         f.write('Pattern,Merchant,Category,Subcategory,Tags\n' + ''.join(','.join(r) + '\n' for r in rows))
     with open(os.path.join(root, 'data', 'card.csv'), 'w') as f:
-        f.write('Date,Description,Amount\n2025-01-03,%s GAS #0123,40.20\n2025-01-04,%s VIDEO 9,8.99\n2025-01-05,%s WHSE,120.00\n2025-01-06,OTHER SHOP,3.00\n' % (w, w, w))
+        f.write(''.join(l + (',2025-0%d' % (1 + i % 2) if month_col else '') + '\n' for i, l in enumerate(
+            ['Date,Description,Amount', '2025-01-03,%s GAS #0123,40.20' % w, '2025-01-04,%s VIDEO 9,8.99' % w, '2025-01-05,%s WHSE,120.00' % w, '2025-01-06,OTHER SHOP,3.00',
+             '2025-01-20,%s ANNUAL FEE,60.00' % w, '2025-02-20,%s ANNUAL FEE,60.00' % w])))
+    # (every third run in a process whose preferred encoding is not UTF-8 - a C locale, a Windows code page: the rule files are UTF-8 files whoever reads them)
+    other_locale = rnd.random() < .35
+    envx = {'LC_ALL': 'C', 'LANG': 'C', 'PYTHONUTF8': '0', 'PYTHONCOERCECLOCALE': '0', 'PYTHONIOENCODING': 'utf-8'} if other_locale else None
+    rec.count('cli_migration_runs_in_a_non_utf8_locale', 1 if other_locale else 0)
     outs = []
     for extra in ([], ['--migrate'], []):
-        p = B.tally(root, 'up', os.path.join(root, 'config'), '--format', 'json', '-v', *extra)
+        p = B.tally(root, 'up', os.path.join(root, 'config'), '--format', 'json', '-v', *extra, env_extra=envx)
         rec.count('cli_runs')
         try:
             js = B.json_from_stdout(p.stdout)
@@ -325,7 +336,7 @@ def cli_migration_run(rec, rnd, tmp, k):
     rec.case()
     rec.count('cli_migration_runs')
     if not (outs[0] == outs[1] == outs[2]):
-        rec.violation('classification-differs:through-the-settings-file', f'rule_mode {mode!r}, CSV rows {rows}: before migration {outs[0]}; the migrating run {outs[1]}; after {outs[2]}',
+        rec.violation('classification-differs:through-the-settings-file', f'rule_mode {mode!r}, month column {month_col}, non-UTF-8 locale {other_locale}, CSV rows {rows}: before migration {outs[0]}; the migrating run {outs[1]}; after {outs[2]}',
                       {'kind': 'cli-migration'})
     shutil.rmtree(root, ignore_errors=True)
 
